@@ -276,7 +276,9 @@ theorem wal_layout_ok :
     [WOP_SET, WOP_COPY, WOP_WRITE, WOP_RESIZE, WOP_SAVEPOINT, WOP_RESET, WOP_SEP] = [1, 2, 3, 4, 5, 6, 127] ∧
     off_WBSEP_len + w_WBSEP_len = sz_WBSEP ∧ off_WBWRITE_off + w_WBWRITE_off = sz_WBWRITE ∧
     off_WBSET_len + w_WBSET_len = sz_WBSET ∧ off_WBCOPY_noff + w_WBCOPY_noff = sz_WBCOPY ∧
-    off_WBRESIZE_nsize + w_WBRESIZE_nsize = sz_WBRESIZE ∧ PAGE_SIZE = 4096 ∧ crcTable.size = 256 := by decide
+    off_WBRESIZE_nsize + w_WBRESIZE_nsize = sz_WBRESIZE ∧ PAGE_SIZE = 4096 := by decide
+
+example : crcTable.size = 256 := rfl
 
 /-- a small log: separator (len 36), one `WBSET` (val 7, off 2, len 3), one savepoint -/
 def exLog : Bytes :=
